@@ -209,6 +209,9 @@ def load(repo, scratch, crate_key, **vm_args):
         for d in glob.glob(os.path.expanduser(f'~/.cargo/registry/src/*/graphql-parser-{mm.group(1)}/src')):
             for k, v in parse_enums(d).items():
                 enums.setdefault(k, v)
+            for sub in ('query', 'schema'):
+                for k, v in parse_enums(os.path.join(d, sub)).items():
+                    enums[f'{sub}::{k}'] = v
     except Exception:
         pass
     machine = vmmod.VM(funcs, enums, **vm_args)
